@@ -151,6 +151,10 @@ func (meta *DefinitionMeta) UnmarshalYAML(value *yaml.Node) error {
 }
 
 func (rec *RecordDefinition) UnmarshalYAML(value *yaml.Node) error {
+	if value.Kind != yaml.MappingNode && len(value.Content) > 0 {
+		return parseError(value, "a !record must be specified as a map with `fields` and optionally `computedFields`")
+	}
+
 	parsedFields := false
 	for i := 0; i < len(value.Content); i += 2 {
 		k := value.Content[i]
@@ -185,7 +189,7 @@ func (rec *RecordDefinition) UnmarshalYAML(value *yaml.Node) error {
 }
 
 func (ns *Namespace) UnmarshalYAML(value *yaml.Node) error {
-	if value.Tag != "!!map" {
+	if value.Kind != yaml.MappingNode || value.Tag != "!!map" {
 		return parseError(value, "expected a mapping from <typename>: <type definition>")
 	}
 
@@ -245,7 +249,7 @@ func (fields *Fields) UnmarshalYAML(value *yaml.Node) error {
 }
 
 func (computedFields *ComputedFields) UnmarshalYAML(value *yaml.Node) error {
-	if value.Tag != "!!map" {
+	if value.Kind != yaml.MappingNode || value.Tag != "!!map" {
 		return parseError(value, "expected computed fields to be a map")
 	}
 
@@ -287,7 +291,7 @@ func UnmarshalExpression(value *yaml.Node) (Expression, error) {
 			key := value.Content[0]
 			value := value.Content[1]
 			if key.Tag == "!switch" {
-				if value.Tag != "!!map" {
+				if value.Kind != yaml.MappingNode || value.Tag != "!!map" {
 					return nil, parseError(value, "expected a mapping from <case>: <expression>")
 				}
 				return UnmarshalSwitchExpression(key, value.Content)
@@ -451,6 +455,10 @@ func convertPattern(pat *parser.Pattern, node NodeMeta) Pattern {
 }
 
 func (protocol *ProtocolDefinition) UnmarshalYAML(value *yaml.Node) error {
+	if value.Kind != yaml.MappingNode && len(value.Content) > 0 {
+		return parseError(value, "a !protocol must be specified as a map with a `sequence`")
+	}
+
 	parsedSequence := false
 	for i := 0; i < len(value.Content); i += 2 {
 		k := value.Content[i]
@@ -484,7 +492,7 @@ func (steps *ProtocolSteps) UnmarshalYAML(value *yaml.Node) error {
 }
 
 func UnmarshalFieldsOrProtocolStepsYAML[T fieldOrProtocolStep](elements *[]*T, value *yaml.Node) error {
-	if value.Tag != "!!map" {
+	if value.Kind != yaml.MappingNode || value.Tag != "!!map" {
 		return parseError(value, "expected field map")
 	}
 
@@ -606,6 +614,9 @@ func UnmarshalArrayYAML(value *yaml.Node) (*GeneralizedType, error) {
 					*array.Dimensions = append(*array.Dimensions, dim)
 				}
 			case "!!map":
+				if v.Kind != yaml.MappingNode {
+					return nil, parseError(v, "dimensions must be specified as a list of dimension specifications or the number of dimensions")
+				}
 				array.Dimensions = &ArrayDimensions{}
 				for i := 0; i < len(v.Content); i += 2 {
 					k := v.Content[i]
@@ -816,6 +827,10 @@ func UnmarshalTypeCases(value *yaml.Node) (TypeCases, error) {
 }
 
 func UnmarshalGenericNode(value *yaml.Node) (Type, error) {
+	if value.Kind != yaml.MappingNode && len(value.Content) > 0 {
+		return nil, parseError(value, "a !generic must be specified with fields `name` and `args`")
+	}
+
 	simpleType := &SimpleType{NodeMeta: createNodeMeta(value)}
 
 	for i := 0; i < len(value.Content); i += 2 {
@@ -881,6 +896,10 @@ func (dimension *ArrayDimension) UnmarshalYAML(value *yaml.Node) error {
 }
 
 func (enum *EnumDefinition) UnmarshalYAML(value *yaml.Node) error {
+	if value.Kind != yaml.MappingNode && len(value.Content) > 0 {
+		return parseError(value, "an enum or flags type must be specified as a map with `values` and optionally `base`")
+	}
+
 	for i := 0; i < len(value.Content); i += 2 {
 		k := value.Content[i]
 		v := value.Content[i+1]
@@ -933,6 +952,9 @@ func UnmarshalEnumValues(flags bool, value *yaml.Node) (*EnumValues, error) {
 		return &vals, nil
 
 	case "!!map":
+		if value.Kind != yaml.MappingNode {
+			return nil, parseError(value, "invalid enum or flag specification")
+		}
 		for i := 0; i < len(value.Content); i += 2 {
 			k := value.Content[i]
 			v := value.Content[i+1]
